@@ -1526,3 +1526,153 @@ theorem try_update_poisoned_returns_false (chk : Nat → Nat → Bool) (s : Stat
     hheld, hpois, Quiescent]
 
 end Woodpile.Abt.SC
+
+/-! ### Synchronises-with at the level of calls -/
+namespace Woodpile.Abt
+namespace Mach
+
+/-- Completed calls are never forgotten. -/
+theorem done_mono_step (M : Mach) (g g' : M.GState) (l : Label) (h : M.gstep g l = some g') :
+    ∀ R ∈ g.done, R ∈ g'.done := by
+  simp only [gstep] at h
+  cases hst : M.step g.s l with
+  | none => simp [hst] at h
+  | some s1 =>
+    simp only [hst] at h
+    cases h
+    intro R hR
+    cases l <;> simp only [gnext]
+    · split
+      · exact List.mem_cons_of_mem _ hR
+      · exact hR
+    · exact hR
+    · exact hR
+
+theorem done_mono (M : Mach) (ls : List Label) : ∀ (g g' : M.GState), M.grun g ls = some g' →
+    ∀ R ∈ g.done, R ∈ g'.done := by
+  induction ls with
+  | nil => intro g g' h; simp [grun] at h; subst h; exact fun _ h => h
+  | cons l ls ih =>
+    intro g g' h R hR
+    simp only [grun] at h
+    cases hst : M.gstep g l with
+    | none => simp [hst] at h
+    | some g1 =>
+      simp only [hst] at h
+      exact ih g1 g' h R (done_mono_step M g g1 l hst R hR)
+
+/-- "From step `c` on, thread `t`'s view of `sequence` is at least `n`": then so is the recorded
+start view of every call of `t` that starts at or after step `c`. -/
+structure After (M : Mach) (ok : M.σ → Prop) (t n c : Nat) (g : M.GState) : Prop where
+  ok : ok g.s
+  view : n ≤ M.vseq g.s t
+  clock : c ≤ g.clock
+  recs : ∀ S ∈ g.done, S.tid = t → c ≤ S.tStart → n ≤ S.vStart
+  cur : ∀ op t0, g.cur t = some (op, t0) → c ≤ t0 → n ≤ M.startOf g.s t
+
+theorem after_step {M : Mach} {chk : Nat → Nat → Bool} {ok : M.σ → Prop} {G : Prop} (L : Laws M chk ok G)
+    {t n c : Nat} {g : M.GState} {l : Label} {s' : M.σ} (hA : After M ok t n c g) (hs : M.step g.s l = some s') :
+    After M ok t n c (M.gnext g l s') := by
+  have hv : n ≤ M.vseq s' t := Nat.le_trans hA.view (L.vmono hA.ok hs t)
+  have hoth := L.others hA.ok hs
+  cases l with
+  | sync t1 u =>
+    refine ⟨L.ok_step hA.ok hs, hv, by show c ≤ g.clock + 1; have := hA.clock; omega, hA.recs, ?_⟩
+    intro op t0 h1 h2
+    show n ≤ M.startOf s' t
+    have : M.startOf s' t = M.startOf g.s t := by
+      by_cases ht : t = t1
+      · subst ht; exact (L.sync hA.ok hs).2.1
+      · exact (hoth t ht).2
+    rw [this]; exact hA.cur op t0 h1 h2
+  | start t1 op1 =>
+    refine ⟨L.ok_step hA.ok hs, hv, by show c ≤ g.clock + 1; have := hA.clock; omega, hA.recs, ?_⟩
+    intro op t0 h1 h2
+    show n ≤ M.startOf s' t
+    by_cases ht : t = t1
+    · subst ht
+      rw [(L.start hA.ok hs).2.1]; exact hA.view
+    · have h1 : g.cur t = some (op, t0) := by
+        have : (upd g.cur t1 (some (op1, g.clock))) t = some (op, t0) := h1
+        rwa [upd_ne _ _ _ ht] at this
+      rw [(hoth t ht).2]; exact hA.cur op t0 h1 h2
+  | run t1 ts =>
+    have hst : ∀ op t0, g.cur t = some (op, t0) → c ≤ t0 → n ≤ M.startOf s' t := by
+      intro op t0 h1 h2
+      have : M.startOf s' t = M.startOf g.s t := by
+        by_cases ht : t = t1
+        · subst ht; exact (L.run hA.ok hs).2
+        · exact (hoth t ht).2
+      rw [this]; exact hA.cur op t0 h1 h2
+    simp only [gnext]
+    split
+    · rename_i op t0 r hc hr
+      refine ⟨L.ok_step hA.ok hs, hv, by show c ≤ g.clock + 1; have := hA.clock; omega, ?_, ?_⟩
+      · intro S hS h1 h2
+        rcases List.mem_cons.mp hS with rfl | hm
+        · have h1 : t1 = t := h1
+          subst h1
+          exact hst op t0 hc h2
+        · exact hA.recs S hm h1 h2
+      · intro op' t0' h1 h2
+        by_cases ht : t = t1
+        · subst ht
+          have : (upd g.cur t none) t = some (op', t0') := h1
+          rw [upd_same] at this; cases this
+        · have : (upd g.cur t1 none) t = some (op', t0') := h1
+          rw [upd_ne _ _ _ ht] at this
+          exact hst op' t0' this h2
+    · exact ⟨L.ok_step hA.ok hs, hv, by show c ≤ g.clock + 1; have := hA.clock; omega, hA.recs, hst⟩
+
+theorem after_run {M : Mach} {chk : Nat → Nat → Bool} {ok : M.σ → Prop} {G : Prop} (L : Laws M chk ok G)
+    {t n c : Nat} (ls : List Label) : ∀ (g g' : M.GState), After M ok t n c g → M.grun g ls = some g' →
+    After M ok t n c g' := by
+  induction ls with
+  | nil => intro g g' hA h; simp [grun] at h; subst h; exact hA
+  | cons l ls ih =>
+    intro g g' hA h
+    simp only [grun, gstep] at h
+    cases hst : M.step g.s l with
+    | none => simp [hst] at h
+    | some s1 => simp only [hst] at h; exact ih _ g' (after_step L hA hst) h
+
+/-- Synchronises-with: after a `sync t u` step, every call of `t` that starts later has a start
+view that includes the return view of every call `u` had completed before the `sync`. -/
+theorem sync_order {M : Mach} {chk : Nat → Nat → Bool} {ok : M.σ → Prop} {G : Prop} (L : Laws M chk ok G)
+    {g0 g1 g2 : M.GState} (hI : GInv M chk ok G g0) (U : CallRec) (hU : U ∈ g0.done) (t : Nat)
+    (hsync : M.gstep g0 (.sync t U.tid) = some g1) (ls : List Label) (hrun : M.grun g1 ls = some g2)
+    (S : CallRec) (hS : S ∈ g2.done) (hSt : S.tid = t) (hlater : g0.clock < S.tStart) : U.vRet ≤ S.vStart := by
+  simp only [gstep] at hsync
+  cases hst : M.step g0.s (.sync t U.tid) with
+  | none => simp [hst] at hsync
+  | some s1 =>
+    simp only [hst] at hsync
+    cases hsync
+    have hA : After M ok t U.vRet (g0.clock + 1) (M.gnext g0 (.sync t U.tid) s1) := by
+      refine ⟨L.ok_step hI.ok hst, ?_, Nat.le_refl _, ?_, ?_⟩
+      · exact Nat.le_trans ((hI.recs U hU).2.2 U.tid (Or.inl rfl)) (L.sync hI.ok hst).2.2
+      · intro S' hS' _ h2
+        have a := (hI.recs S' hS').1.2.1
+        have b := (hI.recs S' hS').2.1
+        omega
+      · intro op t0 h1 h2
+        have h1 : g0.cur t = some (op, t0) := h1
+        have := hI.cur t
+        rw [h1] at this
+        have := this.2.2.1
+        omega
+    exact (after_run L ls _ g2 hA hrun).recs S hS hSt (by omega)
+
+theorem grun_append (M : Mach) (l1 l2 : List Label) : ∀ (g : M.GState),
+    M.grun g (l1 ++ l2) = (match M.grun g l1 with | some g1 => M.grun g1 l2 | none => none) := by
+  induction l1 with
+  | nil => intro g; simp [grun]
+  | cons l ls ih =>
+    intro g
+    simp only [List.cons_append, grun]
+    cases M.gstep g l with
+    | none => rfl
+    | some g1 => exact ih g1
+
+end Mach
+end Woodpile.Abt
